@@ -176,6 +176,10 @@ def daemon_height(rng, mode, height, final):
         return height + rng.choice([0, 0, 1, 2])
     if mode == 'jump':
         return height + rng.choice([0, 5, 50])
+    if mode == 'fall':
+        # the daemon is far ahead at first, then (fail-over to a lagging daemon, invalidateblock) at
+        # the server's own height
+        return final + 30 if height <= final // 2 else height
     return final
 
 
@@ -183,7 +187,7 @@ def run_case(res, rng, tier, groups, label):
     act = rng.choice([0, 1, 2, 3, 5, 1000])
     lim = rng.choice([1, 2, 3, 4, 200])
     nblocks = rng.randrange(1, 9 if tier == 'quick' else 16)
-    mode = rng.choice(['far', 'track', 'track', 'jump', 'final'])
+    mode = rng.choice(['far', 'track', 'track', 'jump', 'final', 'fall'])
     c = Case(res, rng, act, lim, groups)
     before_refused = {k: v for k, v in res.stats.items() if k.startswith('backup_refused')}
     try:
@@ -240,6 +244,18 @@ def run_case(res, rng, tier, groups, label):
                                 'detail': f'{r2} backing out height {top} (tip {tip_h}, reorg limit {lim}, daemon '
                                           f'height {c.dh.get(top)} while it was indexed, block has '
                                           f'{len(c.chain[top].txs)} txs)'})
+                        elif top > tip_h - lim and c.dh.get(tip_h, 1 << 60) <= tip_h and r2 == 'ChainError':
+                            # the server is caught up now (the daemon's height when the tip was indexed
+                            # was the tip's), but this block was indexed while the daemon reported a
+                            # GREATER height: a falling daemon-height trajectory.  The property
+                            # quantifies over those too; the code keeps no undo information (F10)
+                            res.bump('falling_daemon_height_refusals')
+                            c.direct_fail.append({
+                                'clause': 'C15: a block within the reorg limit of the tip cannot be undone',
+                                'tags': ['window', 'F10'],
+                                'detail': f'{r2} backing out height {top} (tip {tip_h}, reorg limit {lim}): it was indexed '
+                                          f'while the daemon reported height {c.dh.get(top)}, above the height '
+                                          f'{tip_h} at which the server later caught up (falling daemon height)'})
                         ok = False
                         break
                     if rng.random() < 0.3:
@@ -309,7 +325,7 @@ def compare(res, c, label):
                 'line': c.lines[i][:300], 'code': c.expect[i][:2000], 'model_or_spec': got[i][:2000],
                 'script': [l for l, k in zip(c.lines[:i + 1], c.kinds[:i + 1]) if k not in ('dump', 'dumpmem')][-40:]}
     for d in c.direct_fail[:1]:
-        res.violations.append(dict(d, suite='index', where=label, tags=['window'], script=ops_script[-60:]))
+        res.violations.append(dict({'tags': ['window']}, **dict(d, suite='index', where=label, script=ops_script[-60:])))
     for _cmd, i in sorted(bad_spec.items(), key=lambda kv: kv[1]):
         case = case_for(i)
         case['clause'] = 'real index differs from the specification of the chain'
@@ -364,8 +380,23 @@ def replay(case):
 
 
 def known_reproduces(finding):
-    return False
+    """F10 on the real code: limit 2, two blocks indexed while the daemon reports height 10, full flush,
+    the daemon then at height 1 (the server is caught up): backing out the tip is refused."""
+    if finding.get('witness', {}).get('kind') != 'F10':
+        return False
+    rng = rng_for(0, 'index-F10')
+    gen = Gen(rng, 1000)
+    real = RealIndex(1000, 2)
+    try:
+        real.open()
+        b0 = gen.new_block(None, max_txs=0)
+        b1 = gen.new_block(b0, max_txs=0)
+        if real.advance(b0, 10) != 'ok' or real.advance(b1, 10) != 'ok' or real.flush(True) != 'ok':
+            return False
+        return real.backup(b1) == 'ChainError'
+    finally:
+        real.destroy()
 
 
 def matches_known(violation, finding):
-    return False
+    return finding.get('witness', {}).get('kind') == 'F10' and 'F10' in (violation.get('tags') or [])
